@@ -59,7 +59,11 @@ def length(it, s):
     k = z3.Int(fresh_name("ck"))
     it.ctx.assume(n >= 0)
     it.ctx.assume(z3.Implies(n > 0, z3.Select(s.member, w)))
-    it.ctx.assume(z3.ForAll([k], z3.Implies(z3.Select(s.member, k), n > 0)))
+    fact = z3.ForAll([k], z3.Implies(z3.Select(s.member, k), n > 0))
+    it.ctx.assume(fact)
+    # decidable as it stands (array property fragment): kept quantified in bounded-instance queries
+    it.ctx.closures = getattr(it.ctx, "closures", {})
+    it.ctx.closures[fact.get_id()] = lambda bound, _f=fact: [_f]
     return mk(n, "int")
 
 
@@ -120,7 +124,15 @@ def enumeration(it, s):
     k = z3.Int(fresh_name("sek"))
     ctx.assume(z3.ForAll([i], z3.Implies(z3.And(0 <= i, i < n),
                                         z3.And(z3.Select(s.member, z3.Select(arr, i)), idx(z3.Select(arr, i)) == i))))
-    ctx.assume(z3.ForAll([k], z3.Implies(z3.Select(s.member, k),
-                                        z3.And(0 <= idx(k), idx(k) < n, z3.Select(arr, idx(k)) == k)), patterns=[idx(k)]))
+    fact = z3.ForAll([k], z3.Implies(z3.Select(s.member, k),
+                                     z3.And(0 <= idx(k), idx(k) < n, z3.Select(arr, idx(k)) == k)), patterns=[idx(k)])
+    ctx.assume(fact)
+
+    def closure(bound, _n=n, _arr=arr, _member=s.member, _k=k):
+        """For n <= bound: a member is one of arr[0..n-1] (with the first axiom's instances this implies the fact)."""
+        alts = [z3.And(i0 < _n, _k == z3.Select(_arr, i0)) for i0 in range(bound)]
+        return [z3.ForAll([_k], z3.Implies(z3.Select(_member, _k), z3.Or(*alts) if alts else z3.BoolVal(False)))]
+    ctx.closures = getattr(ctx, "closures", {})
+    ctx.closures[fact.get_id()] = closure
     s.enum = sq
     return sq
